@@ -6,7 +6,7 @@
 (* deepened type nesting, and "stored" LZ4 / Snappy bodies.                *)
 (* One initial state = one case; Emit prints it.                           *)
 (***************************************************************************)
-EXTENDS CqlResponse, CqlValueSamples, Ascii, TLC, Json
+EXTENDS CqlResponse, CqlValueSamples, Ascii, CustomTypeStrings, TLC, Json
 CONSTANTS Full      \* TRUE: all frames are mutated / truncated; FALSE: a representative subset (quick tier)
 
 Col(ks, tb, name, t) == [ks |-> A(ks), table |-> A(tb), name |-> A(name), t |-> t]
@@ -121,8 +121,15 @@ SFrameComp(d, x, comp) ==
 Rep == IF Full THEN Descs ELSE {d \in Descs : d.k \in {"rows", "prepared", "supported"} \/ (d.k = "error" /\ d.code \in {4096, 4352, 5120, 9472, 61440})
                                              \/ (d.k = "event" /\ d.ev.k # "schema") \/ d.k \in {"auth_success", "schema_change"}}
 TypeIdAt(segs) == {i \in 1..Len(segs) : segs[i].tag = "typeid"}
+\* a column (or a prepared statement's bind marker) whose type is the custom type with class name cs: whatever the name, decoding
+\* the metadata ends with a type or an error
+CtDesc(cs, prep) == LET t == [k |-> "vector", e |-> NT("int"), d |-> 2, class |-> cs] IN
+  IF prep THEN Prepared(<<5>>, None, PMeta(TRUE, <<Col("ks", "t", "v", t)>>, << >>, 0), Meta(TRUE, <<Col("ks", "t", "v", t)>>, None, None))
+  ELSE Rows(OneCol(t), <<t>>, << >>)
 VARIABLE c
 Init ==
+  \/ \E i \in 1..Len(CtGood) : \E prep \in BOOLEAN : LET d == CtDesc(CtGood[i], prep) IN c = [kind |-> "ctype", d |-> d, x |-> Plain, comp |-> "none", segs |-> SFrame(d, Plain)]
+  \/ \E i \in 1..Len(CtBad) : \E prep \in BOOLEAN : LET d == CtDesc(CtBad[i], prep) IN c = [kind |-> "ctype", d |-> d, x |-> Plain, comp |-> "none", segs |-> SFrame(d, Plain)]
   \/ \E d \in Descs : c = [kind |-> "wf", d |-> d, x |-> Plain, comp |-> "none", segs |-> SFrame(d, Plain)]
   \/ \E d \in ExtHosts : \E x \in Exts \ {Plain} : c = [kind |-> "wf", d |-> d, x |-> x, comp |-> "none", segs |-> SFrame(d, x)]
   \/ \E d \in ExtHosts \cup {Supp} : \E x \in {Plain, [Plain EXCEPT !.tracing = Uuid16]} : \E cm \in {"lz4", "snappy"} :
